@@ -118,3 +118,52 @@ Qed.
 
 Theorem tracker_of_a_well_formed_table l : wf false l = true -> tracker l = procedures None l.
 Proof. intros W. unfold tracker. rewrite (tracker_go_procedures l None [] false W); [reflexivity|discriminate]. Qed.
+
+(* ---- with the marks in the order the tracker visits them (points never decrease), every recorded procedure starts strictly before
+        it ends: the hypothesis of in_procedure_closed holds for the tracker's own result ---- *)
+Lemma ple_trans p q r : ple p q = true -> ple q r = true -> ple p r = true.
+Proof.
+  destruct p as [a x], q as [b y], r as [c z]. unfold ple. cbn [fst snd].
+  rewrite !orb_true_iff, !andb_true_iff, !Nat.ltb_lt, !Nat.eqb_eq, !Z.leb_le. intros [H1|[H1 H2]] [H3|[H3 H4]]; [left|left|left|right]; lia.
+Qed.
+
+Fixpoint ascending (lo : point) (l : list (point * mark)) : Prop :=
+  match l with
+  | [] => True
+  | (p, _) :: t => ple lo p = true /\ ascending p t
+  end.
+
+Lemma ascending_In lo l : ascending lo l -> forall p m, In (p, m) l -> ple lo p = true.
+Proof.
+  revert lo. induction l as [|[q k] t IH]; intros lo A p m Hin; [destruct Hin|]. cbn [ascending] in A. destruct A as (A & B).
+  destruct Hin as [H|H]; [injection H as <- _; exact A|]. eapply ple_trans; [exact A|]. eapply IH; eauto.
+Qed.
+
+Lemma tracker_go_ordered l : forall lo start acc s e,
+  ascending lo l -> (forall s0, start = Some s0 -> ple s0 lo = true) ->
+  In (s, e) (tracker_go start l acc) -> In (s, e) acc \/ (ple s e = true /\ s <> e).
+Proof.
+  induction l as [|[p m] t IH]; intros lo start acc s e A Hs H; cbn [tracker_go] in H; [left; exact H|].
+  cbn [ascending] in A. destruct A as (A & B).
+  destruct m.
+  - eapply (IH p (Some p)); eauto. intros s0 E. injection E as <-. apply ple_refl.
+  - destruct start as [s0|].
+    + apply (IH p (Some s0)) in H; [|exact B|intros x E; injection E as <-; eapply ple_trans; [apply Hs; reflexivity|exact A]].
+      destruct H as [H|H]; [|right; exact H].
+      destruct (peq s0 p) eqn:E; [left; exact H|]. apply in_app_or in H as [H|[H|[]]]; [left; exact H|].
+      injection H as <- <-. right. split; [eapply ple_trans; [apply Hs; reflexivity|exact A]|].
+      intros X. subst. rewrite (proj2 (peq_eq _ _) eq_refl) in E. discriminate.
+    + eapply (IH p None); eauto. discriminate.
+  - eapply (IH p start); eauto. intros s0 E. eapply ple_trans; [apply Hs; exact E|exact A].
+Qed.
+
+Theorem tracker_procedures_are_proper lo l s e : ascending lo l -> In (s, e) (tracker l) -> plt s e = true.
+Proof.
+  intros A H. unfold tracker in H. apply (tracker_go_ordered l lo None [] s e A) in H; [|discriminate].
+  destruct H as [[]|(H1 & H2)]. unfold plt. rewrite H1. cbn [andb]. destruct (peq s e) eqn:E; [apply peq_eq in E; contradiction|reflexivity].
+Qed.
+
+(* the closed-interval reading for the tracker itself *)
+Theorem tracker_in_procedure lo l p : ascending lo l ->
+  (in_procedure (tracker l) p = true <-> exists s e, In (s, e) (tracker l) /\ ple s p = true /\ ple p e = true).
+Proof. intros A. apply in_procedure_closed. intros s e H. eapply tracker_procedures_are_proper; eauto. Qed.
